@@ -1954,6 +1954,402 @@ fn random_dt(rng: &mut Rng, lo: i64, hi: i64) -> Dt {
   Dt { y, m, d, h: rng.range(0, 23), mi: rng.range(0, 59), s: rng.range(0, 59), ns, z: fix_zero(random_offset(rng)) }
 }
 
+// ---------------------------------------------------------------------------------------------
+// family `process-zone`: zone-less date-times, resolved with the zone of the PROCESS (`TZ`)
+//
+// A date and time written without offset or zone is compared and subtracted through `get_local_offset`
+// (`feel/src/temporal/mod.rs:595`): the offset of the zone of the process. The harness itself runs in UTC,
+// where every such offset is 0; the family therefore starts child processes of itself with `TZ` set to a zone
+// of corpus/C14/zone_transitions.json (python zoneinfo over the system database, which is also what chrono's
+// `Local` reads) and, in each, evaluates zone-less literals at every hour and half hour within ±(|offset| +
+// 2 h) of every transition (and the seconds next to both wall-clock edges):
+//   `date and time("L") - date and time("LZ")`   — minus the offset the code resolved `L` with, or null;
+//   `date and time("L") = date and time("UZ")`   — `U` = `L` minus the offset of the table, when `L` exists once.
+// Expected (interval arithmetic over the table; second statement: the Lean `zoneOffsetByRules`): a wall-clock
+// reading that exists once is resolved with the offset in force for it; a skipped one has no instant (null; the
+// offsets next to the gap are tolerated — outside the property's quantifier); a repeated one: null or one of
+// the two. No hook: the children are the harness binary with `VERIF_PROBE` (a list of expressions to evaluate).
+
+const PZ_QUICK: [&str; 8] = ["Europe/Warsaw", "America/New_York", "Australia/Lord_Howe", "America/St_Johns", "Pacific/Apia", "Africa/Casablanca", "Asia/Kathmandu", "Etc/UTC"];
+
+pub(crate) fn pz_child(tz: &str, lines: &[String]) -> Option<Vec<String>> {
+  use std::process::{Command, Stdio};
+  let exe = std::env::current_exe().ok()?;
+  let path = std::env::temp_dir().join(format!("verif-c15-pz-{}-{}.txt", std::process::id(), tz.replace('/', "_")));
+  std::fs::write(&path, lines.join("\n")).ok()?;
+  let out = Command::new(exe).args(["C15", "--tier", "quick", "--seed", "1"]).env("TZ", tz).env("VERIF_PROBE", &path).stdin(Stdio::null()).stderr(Stdio::null()).output().ok();
+  let _ = std::fs::remove_file(&path);
+  let out = out?;
+  let text = String::from_utf8_lossy(&out.stdout).to_string();
+  let mut res = vec![];
+  for l in text.lines() {
+    if let Some(i) = l.rfind("  =>  ") {
+      res.push(l[i + 6..].trim().to_string());
+    }
+  }
+  if res.len() == lines.len() {
+    Some(res)
+  } else {
+    None
+  }
+}
+
+fn run_process_zone(cx: &mut Ctx, thorough: bool) {
+  // the expectation (corpus/C14/zone_transitions.json) was computed by python zoneinfo from the system zone
+  // database, release 2025b; chrono's `Local` in the children reads the same files. On a machine with another
+  // release (or none: `Local` then falls back to UTC) the table is not the expectation: the family is skipped
+  // with a note instead of raising alarms that say nothing about the code.
+  let sys = std::fs::read_to_string("/usr/share/zoneinfo/tzdata.zi").ok().and_then(|t| t.lines().next().map(|l| l.trim_start_matches("# version").trim().to_string()));
+  if sys.as_deref() != Some("2025b") {
+    cx.rep.notes.push(format!("process-zone: NOT RUN - the system zone database is {:?}, corpus/C14/zone_transitions.json was made from 2025b", sys));
+    cx.rep.hit("process-zone:not run (system zone database differs from the table's)");
+    return;
+  }
+  let mut tables = crate::c14::load_zone_tables(cx.rep);
+  tables.retain(|z| std::path::Path::new("/usr/share/zoneinfo").join(&z.name).exists());
+  // Europe/Warsaw first: the first disagreement of a signature becomes the replay
+  tables.sort_by_key(|z| (z.name != "Europe/Warsaw", z.name.clone()));
+  let mut deferred: Vec<(Kind, String, String, String)> = vec![];
+  let mut n_lit = 0usize;
+  let mut n_zone = 0usize;
+  for z in &tables {
+    if !thorough && !PZ_QUICK.contains(&z.name.as_str()) {
+      continue;
+    }
+    // wall-clock readings around the transitions from 1902 on (chrono reads the 64-bit block; earlier
+    // transitions are local mean times, covered for named zones by C14)
+    let mut locals: Vec<i64> = vec![];
+    let mut prev = z.initial;
+    for (k, (t, o)) in z.trs.iter().enumerate() {
+      let (ob, oa) = (prev, *o);
+      prev = *o;
+      if *t < -2_140_000_000 || *t > 2_114_380_800 {
+        continue;
+      }
+      if !thorough && *t < 0 && k % 3 != 0 {
+        continue;
+      }
+      let w = ob.abs().max(oa.abs()) + 7200;
+      let lo = (*t + ob.min(oa) - w).div_euclid(1800) * 1800;
+      let hi = *t + ob.max(oa) + w;
+      let mut l = lo;
+      while l <= hi {
+        locals.push(l);
+        l += 1800;
+      }
+      for e in [*t + ob - 1, *t + ob, *t + oa - 1, *t + oa] {
+        locals.push(e);
+      }
+    }
+    // and plain days far from any transition
+    for y in [1975i64, 1999, 2021, 2036] {
+      for (m, d) in [(1i64, 15i64), (7, 15)] {
+        locals.push(crate::c14::zi_days_from_civil_pub(y, m, d) * 86_400 + 43_200);
+      }
+    }
+    locals.sort();
+    locals.dedup();
+    let mut lines: Vec<String> = vec![];
+    let mut offs_all: Vec<Vec<i64>> = vec![];
+    for l in &locals {
+      let offs = z.offsets_for_local(*l);
+      let lt = crate::c14::zi_local_text(*l, 0);
+      lines.push(format!("date and time(\"{}\") - date and time(\"{}Z\")", lt, lt));
+      let u = if offs.len() == 1 { *l - offs[0] } else { *l };
+      lines.push(format!("date and time(\"{}\") = date and time(\"{}Z\")", lt, crate::c14::zi_local_text(u, 0)));
+      offs_all.push(offs);
+    }
+    let Some(res) = pz_child(&z.name, &lines) else {
+      cx.rep.disagree(Kind::ImplVsModel, "process-zone", "process-zone: the child process with TZ set gave no answers", &z.name, "", "one answer per expression");
+      continue;
+    };
+    n_zone += 1;
+    // the Lean statement of the same question
+    let mut spec: Vec<String> = vec![];
+    for chunk in locals.chunks(150) {
+      let dts: Vec<String> = chunk
+        .iter()
+        .map(|l| {
+          let (y, m, d) = civil_from_days(l.div_euclid(86_400));
+          let sod = l.rem_euclid(86_400);
+          format!("({} {} {} {} {} {} 0 local)", y, m, d, sod / 3600, sod % 3600 / 60, sod % 60)
+        })
+        .collect();
+      let req = format!("(c15 localoff {} ({}) ({}))", z.initial, z.trs.iter().map(|(t, o)| format!("{} {}", t, o)).collect::<Vec<_>>().join(" "), dts.join(" "));
+      let ans = cx.model.ask(&req);
+      match Sexp::parse(&ans).and_then(|s| s.as_list().map(|l| l.to_vec())) {
+        Some(items) if items.len() == chunk.len() => {
+          for it in items {
+            spec.push(it.as_list().and_then(|l| l.first().map(|x| x.to_string())).unwrap_or_default());
+          }
+        }
+        _ => {
+          cx.rep.disagree(Kind::ImplVsModel, "process-zone", "driver-error (c15 localoff)", &z.name, &ans.chars().take(80).collect::<String>(), "one pair of offsets per date and time");
+          for _ in chunk {
+            spec.push(String::new());
+          }
+        }
+      }
+    }
+    for (i, l) in locals.iter().enumerate() {
+      let offs = &offs_all[i];
+      let (sub, eq) = (norm_panic(&res[2 * i]), norm_panic(&res[2 * i + 1]));
+      let e = format!("TZ={} {}", z.name, lines[2 * i]);
+      n_lit += 1;
+      cx.rep.case(&e, true);
+      cx.rep.hit(&format!("family:process-zone:{}", match offs.len() { 0 => "skipped", 1 => "exists once", _ => "repeated" }));
+      // the offset the code resolved the zone-less value with
+      let got: Option<i64> = if sub.starts_with("(dtd ") { sub[5..sub.len() - 1].parse::<i128>().ok().map(|n| (-n / 1_000_000_000) as i64) } else { None };
+      let got_text = got.map(|o| o.to_string()).unwrap_or_else(|| sub.clone());
+      // harness oracle against the Lean statement
+      let want_spec = if offs.len() == 1 { offs[0].to_string() } else { "none".to_string() };
+      if !spec[i].is_empty() && spec[i] != want_spec {
+        cx.rep.disagree(Kind::ImplVsModel, "process-zone", "harness: the interval oracle and the Lean zoneOffsetByRules differ", &format!("{} local {}", z.name, l), &want_spec, &spec[i]);
+      }
+      // the first second of a gap and the second after a repeated hour: chrono's `Local` (0.4.45) counts the
+      // edge itself to the other side for some transitions (a convention of one second inside the library the
+      // code asks, not of the code): at an edge the answers of both neighbouring seconds are accepted
+      let edge = z.trs.iter().enumerate().any(|(k, (t, o))| {
+        let ob = if k == 0 { z.initial } else { z.trs[k - 1].1 };
+        *l == *t + ob || *l == *t + *o
+      });
+      if edge {
+        let (before, after) = (z.offsets_for_local(*l - 1), z.offsets_for_local(*l + 1));
+        let ok = if sub == "null" { before.len() != 1 || after.len() != 1 || offs.len() != 1 } else { got.map(|o| before.contains(&o) || after.contains(&o) || offs.contains(&o)).unwrap_or(false) };
+        cx.rep.hit("process-zone:edge second (both neighbours accepted)");
+        if !ok {
+          deferred.push((Kind::ImplVsSpec, e.clone(), got_text.clone(), format!("one of {:?} {:?} {:?}", before, offs, after)));
+        }
+        continue;
+      }
+      match offs.len() {
+        1 => {
+          if got != Some(offs[0]) || eq != "true" {
+            cx.rep.disagree(
+              Kind::ImplVsSpec,
+              "process-zone",
+              "C15 process-zone: a zone-less date and time is not resolved with the offset in force at the written local time",
+              &e,
+              &format!("offset {} ; {} => {}", got_text, lines[2 * i + 1], eq),
+              &format!("offset {} ; true", offs[0]),
+            );
+          }
+        }
+        0 => {
+          let around: Vec<i64> = {
+            let mut v = vec![z.initial];
+            v.extend(z.trs.iter().map(|p| p.1));
+            v
+          };
+          if sub == "null" {
+            cx.rep.hit("process-zone:skipped:null");
+          } else if got.map(|o| around.contains(&o)).unwrap_or(false) {
+            cx.rep.hit("process-zone:skipped:resolved with an offset of the zone");
+          } else {
+            cx.rep.disagree(Kind::ImplVsSpec, "process-zone", "C15 process-zone: a skipped local time is resolved with an offset the zone never had", &e, &got_text, "null");
+          }
+        }
+        _ => {
+          if sub == "null" {
+            cx.rep.hit("process-zone:repeated:null");
+          } else if got.map(|o| offs.contains(&o)).unwrap_or(false) {
+            cx.rep.hit("process-zone:repeated:one of the two");
+          } else {
+            cx.rep.disagree(Kind::ImplVsSpec, "process-zone", "C15 process-zone: a repeated local time is resolved with neither of its two offsets", &e, &got_text, &format!("null or one of {:?}", offs));
+          }
+        }
+      }
+      // the tie: the model of the repaired code (`zoneOffsetByRules`) answers none for skipped and repeated readings
+      if !spec[i].is_empty() && offs.len() != 1 && sub != "null" {
+        cx.rep.hit("process-zone:model-none-but-value");
+        deferred.push((Kind::ImplVsModel, e.clone(), got_text.clone(), "none (the model of the repaired code: a skipped or repeated local time has no offset)".to_string()));
+      }
+      if i % 997 == 0 {
+        cx.rep.sample(json!({"family": "process-zone", "TZ": z.name, "expression": lines[2 * i], "implementation": sub, "offsets in force (zoneinfo)": offs, "Lean": spec[i]}));
+      }
+    }
+  }
+  for (k, e, got, want) in deferred {
+    cx.rep.disagree(k, "process-zone", "C15 process-zone: a zone-less date and time is not resolved with the offset in force at the written local time", &e, &got, &want);
+  }
+  cx.rep.notes.push(format!("process-zone: {} zone-less literals in child processes with TZ set to {} zones", n_lit, n_zone));
+  cx.rep.extra.insert("process_zone_cases".into(), json!(n_lit));
+}
+
+// ---------------------------------------------------------------------------------------------
+// family `sub-laws`: the arithmetic that exists on date-times — differences, order, sums of differences —
+// judged on the implementation's own answers (no oracle): (a − b) + (b − c) = a − c; b − a = −(a − b);
+// a − a = PT0S; a < b ⟺ a − c < b − c; a = b ⟺ a − c = b − c; a < b ⟺ a − b < PT0S
+// (theorems datetime_sub_chasles, datetime_sub_antisymm, datetime_sub_sign, datetime_order_sub_compat).
+
+fn run_sub_laws(cx: &mut Ctx, triples: &[(Dt, Dt, Dt)]) {
+  for (a, b, c) in triples {
+    let e = format!(
+      "{{a: {}, b: {}, c: {}, z: duration(\"PT0S\"), r: [a - b, b - c, a - c, (a - b) + (b - c), b - a, -(a - b), a < b, (a - c) < (b - c), a = b, (a - c) = (b - c), a - a, (a - b) < z, a > b, (a - c) > (b - c)]}}.r",
+      a.expr(),
+      b.expr(),
+      c.expr()
+    );
+    let r: Vec<String> = feel_list(&e).iter().map(|s| norm_panic(s)).collect();
+    cx.rep.case(&e, true);
+    if r.len() != 14 {
+      cx.rep.hit("sub-laws:not-evaluated");
+      if r.iter().any(|s| s == "panic") {
+        cx.rep.disagree(Kind::ImplVsSpec, "sub-laws", "C15 sub-laws: date-time arithmetic panics", &e, &r.join(" "), "values or null");
+      }
+      continue;
+    }
+    let val = |s: &String| s.starts_with("(dtd ");
+    let mut law = |name: &str, applies: bool, holds: bool, got: String, want: String| {
+      if !applies {
+        cx.rep.hit(&format!("sub-laws:{}:not applicable (a difference is null)", name));
+      } else if holds {
+        cx.rep.hit(&format!("sub-laws:{}:holds", name));
+      } else {
+        cx.rep.disagree(Kind::ImplVsSpec, "sub-laws", &format!("C15 sub-laws: {} fails", name), &e, &got, &want);
+      }
+    };
+    law("(a - b) + (b - c) = a - c", val(&r[0]) && val(&r[1]) && val(&r[2]), r[3] == r[2], r[3].clone(), r[2].clone());
+    law("b - a = -(a - b)", val(&r[0]) && val(&r[4]), r[4] == r[5], r[4].clone(), r[5].clone());
+    law("a < b iff a - c < b - c", val(&r[1]) && val(&r[2]), r[6] == r[7] && r[12] == r[13], format!("{} {}", r[7], r[13]), format!("{} {}", r[6], r[12]));
+    law("a = b iff a - c = b - c", val(&r[1]) && val(&r[2]), r[8] == r[9], r[9].clone(), r[8].clone());
+    law("a - a = PT0S", val(&r[0]), r[10] == "(dtd 0)", r[10].clone(), "(dtd 0)".into());
+    law("a < b iff a - b < PT0S", val(&r[0]), r[6] == r[11], r[11].clone(), r[6].clone());
+  }
+  cx.rep.extra.insert("sub_laws_triples".into(), json!(triples.len()));
+}
+
+// ---------------------------------------------------------------------------------------------
+// family `temporal-arith`: `+` and binary `-` on every pair of kinds of temporal values, against the model of
+// `build_add` / `build_sub` (`feelAdd`, `feelSub`; theorem temporal_add_sub_domain). Sums and differences of a
+// date, a time or a date and time with a duration are null in the code (not implemented, not named by the
+// property): counted; the model says so too, so an implementation that starts to answer breaks the tie and the
+// model has to follow.
+
+fn run_temporal_arith(cx: &mut Ctx, operands: &[String]) {
+  let obs: Vec<String> = operands.iter().map(|t| norm_panic(&feel(t))).collect();
+  let mut reqs = vec![];
+  let mut exprs = vec![];
+  for (i, v) in operands.iter().enumerate() {
+    for (j, w) in operands.iter().enumerate() {
+      if obs[i] == "null" || obs[j] == "null" || obs[i] == "panic" || obs[j] == "panic" {
+        continue;
+      }
+      reqs.push(format!("(c15 arith {} {} none none)", obs[i], obs[j]));
+      exprs.push((i, j, format!("{{v: {}, w: {}, r: [v + w, w + v, v - w, w - v]}}.r", v, w)));
+    }
+  }
+  let answers = cx.model.ask_batch(&reqs);
+  let kind = |o: &str| -> &'static str {
+    if o.starts_with("(dtd") {
+      "days and time duration"
+    } else if o.starts_with("(ymd") {
+      "years and months duration"
+    } else if o.starts_with("(dt ") {
+      "date and time"
+    } else if o.starts_with("(date") {
+      "date"
+    } else if o.starts_with("(time") {
+      "time"
+    } else {
+      "other"
+    }
+  };
+  for ((i, j, e), ans) in exprs.iter().zip(answers.iter()) {
+    let r: Vec<String> = feel_list(e).iter().map(|s| norm_panic(s)).collect();
+    cx.rep.case(e, i != j);
+    let got = format!("({})", r.join(" "));
+    if &got != ans {
+      cx.rep.disagree(Kind::ImplVsModel, "temporal-arith", "temporal-arith: + or - on temporal values differs from the model of build_add / build_sub", e, &got, ans);
+    }
+    if r.len() == 4 {
+      for (k, op) in ["+", "+ (swapped)", "-", "- (swapped)"].iter().enumerate() {
+        let (l, rr) = if k % 2 == 0 { (kind(&obs[*i]), kind(&obs[*j])) } else { (kind(&obs[*j]), kind(&obs[*i])) };
+        cx.rep.hit(&format!("temporal-arith:{} {} {}:{}", l, op.chars().next().unwrap(), rr, if r[k] == "null" { "null" } else { "value" }));
+      }
+    }
+  }
+  cx.rep.extra.insert("temporal_arith_pairs".into(), json!(exprs.len()));
+}
+
+// ---------------------------------------------------------------------------------------------
+// family `conversions`: `date(v)`, `time(v)`, `date and time(v, w)`, `years and months duration(v, w)` on every
+// pair of kinds of temporal values, against the model of the built-ins (bifDateOf, bifTimeOf, bifDateTimeOf,
+// bifYmDuration; theorems datetime_decompose_recompose, ym_whole_months_datetimes) and — whole months — against
+// the calendar specification on the WRITTEN dates; `date and time(date(v), time(v)) = v` on every date and time.
+
+fn run_conversions(cx: &mut Ctx, operands: &[String]) {
+  let obs: Vec<String> = operands.iter().map(|t| norm_panic(&feel(t))).collect();
+  let mut reqs = vec![];
+  let mut exprs = vec![];
+  for (i, v) in operands.iter().enumerate() {
+    for (j, w) in operands.iter().enumerate() {
+      if obs[i] == "null" || obs[j] == "null" || obs[i] == "panic" || obs[j] == "panic" {
+        continue;
+      }
+      reqs.push(format!("(c15 conv {} {})", obs[i], obs[j]));
+      exprs.push((i, j, format!("{{v: {}, w: {}, r: [date(v), time(v), date and time(v, w), years and months duration(v, w), date and time(date(v), time(v))]}}.r", v, w)));
+    }
+  }
+  let answers = cx.model.ask_batch(&reqs);
+  for ((i, j, e), ans) in exprs.iter().zip(answers.iter()) {
+    let r: Vec<String> = feel_list(e).iter().map(|s| norm_panic(s)).collect();
+    cx.rep.case(e, true);
+    let Some((m, sp)) = parse_pair(ans) else {
+      cx.rep.disagree(Kind::ImplVsModel, "conversions", "driver-error (c15 conv)", e, &r.join(" "), ans);
+      continue;
+    };
+    if r.len() != 5 {
+      cx.rep.disagree(Kind::ImplVsSpec, "conversions", "C15 conversions: a conversion between temporal values fails", e, &r.join(" "), &m.to_string());
+      continue;
+    }
+    let got = format!("({})", r[..4].join(" "));
+    if got != m.to_string() {
+      cx.rep.disagree(Kind::ImplVsModel, "conversions", "conversions: date(v) / time(v) / date and time(v, w) / years and months duration(v, w) differ from the model", e, &got, &m.to_string());
+    }
+    // written-out expectations: the date part of v, the time part of v, the date of v with the time w
+    {
+      let toks = |o: &str| -> Vec<String> { Sexp::parse(o).and_then(|x| x.as_list().map(|l| l.iter().map(|t| t.to_string()).collect())).unwrap_or_default() };
+      let (tv, tw) = (toks(&obs[*i]), toks(&obs[*j]));
+      let date_of: Option<String> = match tv.first().map(|s| s.as_str()) {
+        Some("date") | Some("dt") if tv.len() >= 4 => Some(tv[1..4].join(" ")),
+        _ => None,
+      };
+      let time_of: Option<String> = match tv.first().map(|s| s.as_str()) {
+        Some("date") => Some("0 0 0 0 utc".to_string()),
+        Some("dt") if tv.len() == 9 => Some(tv[4..9].join(" ")),
+        Some("time") if tv.len() == 6 => Some(tv[1..6].join(" ")),
+        _ => None,
+      };
+      let want_date = date_of.clone().map(|d| format!("(date {})", d)).unwrap_or_else(|| "null".into());
+      let want_time = time_of.map(|t| format!("(time {})", t)).unwrap_or_else(|| "null".into());
+      let want_dt = match (&date_of, tw.first().map(|s| s.as_str())) {
+        (Some(d), Some("time")) if tw.len() == 6 => format!("(dt {} {})", d, tw[1..6].join(" ")),
+        _ => "null".to_string(),
+      };
+      let want = [want_date, want_time, want_dt];
+      for (k, name) in ["date(v)", "time(v)", "date and time(v, w)"].iter().enumerate() {
+        if r[k] != want[k] {
+          cx.rep.disagree(Kind::ImplVsSpec, "conversions", &format!("C15 conversions: {} is not the written part(s) of its argument(s)", name), e, &r[k], &want[k]);
+        }
+      }
+    }
+    let spt = sp.to_string();
+    if r[3] != spt {
+      cx.rep.disagree(Kind::ImplVsSpec, "conversions", "C15 conversions: years and months duration of dates / date-times is not the whole months between the written dates", e, &r[3], &spt);
+    }
+    cx.rep.hit(&format!("conversions:ym:{}", if spt == "null" { "not both with a date" } else { "whole months of the written dates" }));
+    if obs[*i].starts_with("(dt ") {
+      if r[4] != obs[*i] {
+        cx.rep.disagree(Kind::ImplVsSpec, "conversions", "C15 conversions: date and time(date(v), time(v)) is not v", e, &r[4], &obs[*i]);
+      } else {
+        cx.rep.hit("conversions:date and time(date(v), time(v)) = v");
+      }
+    }
+  }
+  cx.rep.extra.insert("conversion_pairs".into(), json!(exprs.len()));
+}
+
 pub fn run(cfg: &Cfg) -> Report {
   match crate::util::guarded(|| run_inner(cfg)) {
     Ok(r) => r,
@@ -1967,7 +2363,7 @@ pub fn run(cfg: &Cfg) -> Report {
 fn run_inner(cfg: &Cfg) -> Report {
   let mut rep = Report::new(
     "C15",
-    "dates (validity, weekday, properties) from date(y,m,d) with month ends, leap days, day 0 and last+1 of years -1..2400 (every day in the thorough tier) and sampled years to ±999999999; date(y,m,d) with fractional, wrapping and out-of-range numbers; pairs of dates (order, whole months); pairs of date-times with offsets and named zones (comparison, subtraction, properties); pairs of date-times within 15 h of a wall-clock boundary (turn of the year, month incl. the end of February in leap and common years, day, hour, daylight-saving switches of named zones) written with offsets -14:00…+14:00 and named zones so that the texts lie on different sides of the boundary while the instants are equal, in the opposite or in the same order (twenty forms: <, <=, =, >=, >, !=, both differences, between and in); durations (components, +, -, =, <). Non-trivial: month-end/first/zero days for single dates, distinct operands for pairs; distinct by request line.",
+    "dates (validity, weekday, properties) from date(y,m,d) with month ends, leap days, day 0 and last+1 of years -1..2400 (every day in the thorough tier) and sampled years to ±999999999; date(y,m,d) with fractional, wrapping and out-of-range numbers; pairs of dates (order, whole months); pairs of date-times with offsets and named zones (comparison, subtraction, properties); pairs of date-times within 15 h of a wall-clock boundary (turn of the year, month incl. the end of February in leap and common years, day, hour, daylight-saving switches of named zones) written with offsets -14:00…+14:00 and named zones so that the texts lie on different sides of the boundary while the instants are equal, in the opposite or in the same order (twenty forms: <, <=, =, >=, >, !=, both differences, between and in); durations (components, +, -, =, <); zone-less date-times in child processes with TZ set to zones of the transition table (every hour and half hour around every transition since 1902, the offset they are resolved with against the table and the Lean rules); triples of date-times (six laws of differences and order on the implementation's answers); every pair of kinds of temporal values under + and binary - (against the model) and under date(v), time(v), date and time(v, w), years and months duration(v, w) (against the model, whole months against the calendar on the written dates). Non-trivial: month-end/first/zero days for single dates, distinct operands for pairs; distinct by request line.",
   );
   if crate::c14::probe_if_requested() {
     return rep;
@@ -2203,6 +2599,88 @@ fn run_inner(cfg: &Cfg) -> Report {
     pt.push(None);
   }
   run_props(&mut cx, &pd, &pt);
+
+
+  // ---- zone-less date-times in child processes with TZ set; laws of differences; + and - on all kinds
+  {
+    run_process_zone(&mut cx, thorough);
+    let mut lrng = Rng::new(cfg.seed ^ 0x5b1a35);
+    let mut triples: Vec<(Dt, Dt, Dt)> = vec![];
+    let named = |rng: &mut Rng| -> Dt {
+      let r = rng.pick(&ZONE_TABLE).clone();
+      Dt { y: r.1 as i64, m: r.2 as i64, d: r.3 as i64, h: r.4 as i64, mi: r.5 as i64, s: r.6 as i64, ns: 0, z: Zone::Named(r.0.to_string()) }
+    };
+    for k in 0..(if thorough { 6000 } else { 1200 }) {
+      let mut pick = |rng: &mut Rng| -> Dt {
+        match rng.below(8) {
+          0 => named(rng),
+          1 => random_dt(rng, -262_000, 262_000),
+          2 => random_dt(rng, 1600, 2400),
+          _ => random_dt(rng, 1950, 2100),
+        }
+      };
+      let a = pick(&mut lrng);
+      let mut b = pick(&mut lrng);
+      let mut c = pick(&mut lrng);
+      if k % 5 == 0 {
+        // the same instant written at another offset; neighbours a second and a nanosecond apart
+        b = a.clone();
+        if let Zone::Offset(_) | Zone::Utc = a.z {
+          b.z = fix_zero(Zone::Offset(match a.z { Zone::Offset(o) => o, _ => 0 } + 3600 * lrng.range(-2, 2)));
+          if let (Zone::Offset(ob), oa) = (&b.z, match a.z { Zone::Offset(o) => o, _ => 0 }) {
+            let sh = (ob - oa) / 3600;
+            if b.h + sh >= 0 && b.h + sh <= 23 && ob.abs() < 54_000 {
+              b.h += sh;
+            } else {
+              b.z = a.z.clone();
+            }
+          }
+        }
+        if k % 10 == 0 {
+          c = b.clone();
+          c.ns = if c.ns == 0 { 1_000_000 } else { 0 };
+        }
+      }
+      triples.push((a, b, c));
+    }
+    run_sub_laws(&mut cx, &triples);
+    let mut ops: Vec<String> = vec![
+      "date(\"2021-01-31\")", "date(\"2020-02-29\")", "date(\"-0001-12-31\")", "date(999999999,12,31)",
+      "time(\"23:59:59Z\")", "time(\"00:00:00+14:00\")", "time(\"12:00:00.5-00:30\")",
+      "date and time(\"2021-01-31T00:00:00Z\")", "date and time(\"2020-02-29T23:59:59.999+14:00\")", "date and time(\"1970-01-01T00:00:00-05:00\")",
+      "date and time(\"2262-04-12T00:00:00Z\")", "date and time(\"1677-09-21T00:00:00Z\")", "date and time(\"262142-12-31T23:59:59Z\")",
+      "duration(\"P1D\")", "duration(\"-PT0.000000001S\")", "duration(\"PT0S\")", "duration(\"P106751DT23H47M16.854775807S\")", "duration(\"-P999999999D\")",
+      "duration(\"P1M\")", "duration(\"-P11M\")", "duration(\"P0M\")", "duration(\"P1Y2M\")", "duration(\"P768614336404564650Y7M\")", "duration(\"-P768614336404564650Y7M\")",
+    ].iter().map(|s| s.to_string()).collect();
+    for _ in 0..(if thorough { 40 } else { 14 }) {
+      let x = random_dt(&mut lrng, 1900, 2100);
+      ops.push(match lrng.below(5) {
+        0 => format!("date(\"{:04}-{:02}-{:02}\")", x.y, x.m, x.d),
+        1 => format!("time(\"{}\")", x.time_text()),
+        2 => format!("date and time(\"{:04}-{:02}-{:02}T{}\")", x.y, x.m, x.d, x.time_text()),
+        3 => format!("duration(\"{}P{}DT{}H{}M{}S\")", if lrng.chance(1, 2) { "-" } else { "" }, lrng.range(0, 40_000), x.h, x.mi, x.s),
+        _ => format!("duration(\"{}P{}Y{}M\")", if lrng.chance(1, 2) { "-" } else { "" }, lrng.range(0, 3000), lrng.range(0, 40)),
+      });
+    }
+    run_temporal_arith(&mut cx, &ops);
+    // conversions: dates and date-times (local date next to the end of a month, offsets both ways, named zones), a few others
+    let mut cops: Vec<String> = vec![
+      "date(\"2021-01-31\")", "date(\"2020-02-29\")", "date(\"2021-03-01\")", "date(\"-0001-12-31\")", "date(999999999,12,31)",
+      "time(\"23:59:59Z\")", "time(\"12:00:00.5-00:30\")", "time(\"01:02:03@Europe/Warsaw\")", "time(\"12:00:00\")",
+      "date and time(\"2021-01-31T23:00:00Z\")", "date and time(\"2021-03-01T00:00:00+02:00\")", "date and time(\"2020-02-29T23:59:59.999-14:00\")",
+      "date and time(\"2021-12-31T23:30:00@America/New_York\")", "date and time(\"2022-01-01T00:30:00@Pacific/Kiritimati\")", "date and time(\"2021-06-30T12:00:00\")",
+      "duration(\"P1D\")", "duration(\"P1M\")",
+    ].iter().map(|s| s.to_string()).collect();
+    for _ in 0..(if thorough { 60 } else { 24 }) {
+      let x = random_dt(&mut lrng, 1900, 2100);
+      let day = if lrng.chance(1, 2) { x.d } else if lrng.chance(1, 2) { 1 } else { dim(x.y, x.m) };
+      cops.push(match lrng.below(3) {
+        0 => format!("date(\"{:04}-{:02}-{:02}\")", x.y, x.m, day),
+        _ => format!("date and time(\"{:04}-{:02}-{:02}T{}\")", x.y, x.m, day, x.time_text()),
+      });
+    }
+    run_conversions(&mut cx, &cops);
+  }
 
   // ---- durations
   let mut dtds: Vec<i128> = vec![0, 1, -1, 86_400_000_000_000, -93_600_000_000_000, 129_600_000_000_000, 999_999_999, 59_999_999_999, 18_446_744_073_709_551_615i128 * 1_000_000_000];
